@@ -36,7 +36,8 @@ META = {
 
 RULE = ("generated: a case = (layout, buffer length, append flag, #subpaths, #writes per rank, max line length, feature flags, seed); the harness "
         "draws subpaths (files f<i> below 0-3 random directories d<j>), line lengths steered to 0/1/L-1/L/>L/max, text or binary bytes, single or "
-        "multi-argument writes, optionally writes from handlers, optionally pre-existing files incl. one nobody writes to and one without final "
+        "multi-argument writes, typed arguments (ints, doubles, bools) with and without sticky stream manipulators (hex, oct, fixed, scientific, "
+        "setprecision, setfill, boolalpha, showbase, uppercase, showpos) whose expected text is a fresh ostringstream's, optionally writes from handlers, optionally pre-existing files incl. one nobody writes to and one without final "
         "newline, optionally a second multi_output generation on the same prefix; non-trivial = at least one file received lines from >= 2 ranks "
         "or had old content; daily_output: timestamps steered to day/month/year/leap/century/2^31 boundaries")
 
@@ -103,11 +104,13 @@ def parse_mo(sr, ranks):
             if w[0] == "gen":
                 g = int(w[1])
                 while len(gens) <= g:
-                    gens.append({"writes": collections.defaultdict(list), "files": {}, "dumped": False})
+                    gens.append({"writes": collections.defaultdict(list), "files": {}, "dumped": False, "packs": []})
             elif w[0] == "old":
                 olds[unhex(w[1]).decode()] = unhex(w[2])
             elif w[0] == "w":
                 gens[g]["writes"][r].append((unhex(w[1]).decode(), unhex(w[2])))
+            elif w[0] == "p":
+                gens[g]["packs"].append((unhex(w[1]), w[2:]))
             elif w[0] == "f":
                 gens[g]["files"][unhex(w[1]).decode()] = unhex(w[2])
                 gens[g]["dumped"] = True
@@ -246,6 +249,18 @@ def check_mo(res, case, sr, model_ok):
                     # Out.splitNl of the model's file gives back the lines, nothing left over
                     if mrest != b"" or sorted(mlines) != sorted(lines):
                         res.corr_failures.append({"relation": "Out.splitNl (Out.fileAfter ..) == lines", "what": f"file {s}", "case": dict(cs, gen=gi, sub=s)})
+    # typed arguments: the line a fresh std::ostringstream gives for the call's arguments == Out.pack of the same arguments
+    packs = [pk for g in gens for pk in g["packs"]]
+    if packs:
+        feats.add("typed-args")
+        res.count("typed-arg-lines", len(packs))
+        if model_ok:
+            outs = C.model("out", ["pack " + " ".join(toks) for (_, toks) in packs])
+            for (line, toks), o in zip(packs, outs):
+                if unhex(o.strip()) != line:
+                    res.corr_failures.append({"relation": "Out.pack (arguments of one call) == line produced by a fresh std::ostringstream",
+                                              "what": f"tokens {toks}: model {o}, real {hx(line)}", "case": cs})
+                    break
     res.evaluations += 1
     res.traces_validated += 1
     cls = "L=default" if case["L"] < 0 else ("L=%d" % case["L"])
